@@ -2,6 +2,7 @@
 import json
 import os
 import shutil
+import signal
 import subprocess
 import tempfile
 import time
@@ -36,22 +37,44 @@ def rmtree(d):
     shutil.rmtree(d, ignore_errors=True)
 
 
-def run_rg(args, cwd, close_after=None, timeout=300, nobody=True, env=None):
-    """runs rg; returns dict(status, out, err, secs, timeout).  close_after=k: read exactly k bytes of stdout
-    (or to EOF), then close the read end."""
+def run_rg(args, cwd, close_after=None, timeout=300, nobody=True, env=None, preclosed=False):
+    """runs rg (in its own process group; on a timeout the whole group is killed); returns dict(status, out, err, secs,
+    timeout).  close_after=k: read exactly k bytes of stdout (or to EOF), then close the read end.
+    preclosed: stdout is a pipe whose read end is closed before rg is started."""
     cmd = (NOBODY if nobody else []) + [vlib.RG, "--no-config"] + list(args)
     e = dict(os.environ)
     e.pop("RIPGREP_CONFIG_PATH", None)
     if env:
         e.update(env)
     t0 = time.time()
-    p = subprocess.Popen(cmd, cwd=cwd, stdin=subprocess.DEVNULL, stdout=subprocess.PIPE, stderr=subprocess.PIPE, env=e)
     timed_out = False
+
+    def kill_group(p):
+        try:
+            os.killpg(p.pid, signal.SIGKILL)
+        except OSError:
+            pass
+        p.kill()
+    if preclosed:
+        rfd, wfd = os.pipe()
+        os.close(rfd)
+        p = subprocess.Popen(cmd, cwd=cwd, stdin=subprocess.DEVNULL, stdout=wfd, stderr=subprocess.PIPE, env=e,
+                             start_new_session=True)
+        os.close(wfd)
+        try:
+            _, err = p.communicate(timeout=timeout)
+        except subprocess.TimeoutExpired:
+            kill_group(p)
+            _, err = p.communicate()
+            timed_out = True
+        return dict(status=p.returncode, out=b"", err=err, secs=time.time() - t0, timeout=timed_out)
+    p = subprocess.Popen(cmd, cwd=cwd, stdin=subprocess.DEVNULL, stdout=subprocess.PIPE, stderr=subprocess.PIPE, env=e,
+                         start_new_session=True)
     if close_after is None:
         try:
             out, err = p.communicate(timeout=timeout)
         except subprocess.TimeoutExpired:
-            p.kill()
+            kill_group(p)
             out, err = p.communicate()
             timed_out = True
     else:
@@ -63,10 +86,10 @@ def run_rg(args, cwd, close_after=None, timeout=300, nobody=True, env=None):
             out += chunk
         p.stdout.close()
         try:
+            p.wait(timeout=timeout)        # (the diagnostics of these runs are a few lines: they fit the pipe)
             err = p.stderr.read()
-            p.wait(timeout=timeout)
         except subprocess.TimeoutExpired:
-            p.kill()
+            kill_group(p)
             p.wait()
             err = b""
             timed_out = True
